@@ -6,6 +6,7 @@ import (
 
 	"aaverif/internal/plan"
 	"aaverif/internal/ref"
+	"aaverif/internal/rng"
 )
 
 func init() { register("C10", checkC10) }
@@ -153,6 +154,68 @@ func checkC10(e *Env) {
 		compare(x.grp, baseAcc, plan.Op{Fn: "chkval", L: int64(x.grp.lang), S: hxs(x.grp.base)}, p)
 	})
 
+	// histories in one process: a non-normalised spelling asked under one language and then
+	// under another, each followed by its NFKD spelling under the same language — the two
+	// verdicts of such a pair must agree whatever was asked before
+	nh := e.pick(40, 400)
+	histPairs := newCounter()
+	parallel(nh, e.Workers, func(h int) {
+		r := rng.New(e.Seed, "C10-hist-"+itoa(h))
+		var ops []plan.Op
+		add := func(l int, sp string) {
+			ops = append(ops, plan.Op{I: len(ops), Fn: "chk", L: int64(l), S: hxs(sp)})
+		}
+		type pair struct{ variant, base int }
+		var pairs []pair
+		for k := 0; k < 6; k++ {
+			l := []int{3, 5, 6, 7, 3, 7}[(h+k)%6] // French, Japanese, Korean, Spanish
+			l2 := []int{7, 6, 5, 3, 8, 2}[(h+k)%6]
+			size := ref.EntSizes[r.Intn(5)]
+			first := make([]int, size*3/4-1)
+			for i := range first {
+				first[i] = r.Intn(2048)
+			}
+			idx := e.sentenceWith(size, first, r.Intn(1<<uint(11-size/4)), l)
+			base := e.spellSentence(l, idx, "NFKD", " ", r)
+			for _, f := range []string{"NFC", "preimage-first", "NFKC"} {
+				sep := []string{" ", "\u3000"}[r.Intn(2)]
+				v := e.spellSentence(l, idx, f, sep, r)
+				if v == base {
+					continue
+				}
+				if n, ok := e.NFKD1(v); !ok || n != base {
+					continue
+				}
+				for _, lang := range []int{l, l2, l} {
+					add(lang, v)
+					add(lang, base)
+					pairs = append(pairs, pair{len(ops) - 2, len(ops) - 1})
+				}
+			}
+		}
+		if len(ops) == 0 {
+			return
+		}
+		res, died := e.RunProc(drv, ops, nil, 0)
+		if died != "" {
+			skipped.Inc("history-process-died")
+			return
+		}
+		for _, pr := range pairs {
+			a, b := &res[pr.variant], &res[pr.base]
+			if a.Panic != "" || b.Panic != "" {
+				continue
+			}
+			histPairs.Inc("pairs")
+			if (a.Err == nil) != (b.Err == nil) {
+				e.Violate(&Violation{What: fmt.Sprintf("after earlier calls in the same process, two spellings with the same NFKD form get different verdicts under %s: %s is %s but its NFKD spelling %s is %s",
+					ref.Names[ops[pr.variant].L], preview(ops[pr.variant].Str()), accWord(a.Err == nil), preview(ops[pr.base].Str()), accWord(b.Err == nil)),
+					Ops: ops[:pr.base+1], Expected: "same verdict", Observed: []any{a, b}, Detail: "the last two calls are the pair; the preceding ones are their history"})
+				return
+			}
+		}
+	})
+
 	// coverage of (language, word, form) triples whose spelling is non-trivial
 	covCount := map[string]string{}
 	total, got := 0, 0
@@ -172,7 +235,7 @@ func checkC10(e *Env) {
 	e.WriteEvidence("exploration", map[string]any{
 		"evaluations":                    stats.Ops,
 		"distinct_nontrivial":            nontrivial.Len(),
-		"rule":                           "a case is a pair (base, variant) whose NFKD forms are equal according to CPython (pairs failing this precondition are skipped and counted, never asserted): valid sentences containing every list word of every language at every word count, spelled in NFC, NFD, NFKC, NFKD, with every maximal single-code-point pre-image (full-width, ligature, precomposed, Hangul syllable, compatibility ideograph; first and random choice), mixed forms, joined by U+0020, U+3000 or another code point that normalises to U+0020; wrong-checksum and unknown-word sentences in the same spellings; random Unicode strings with their four normal forms and a random pre-image respelling; non-trivial = the two strings differ bytewise; distinct by (base, variant, language)",
+		"rule":                           "a case is a pair (base, variant) whose NFKD forms are equal according to CPython (pairs failing this precondition are skipped and counted, never asserted): valid sentences containing every list word of every language at every word count, spelled in NFC, NFD, NFKC, NFKD, with every maximal single-code-point pre-image (full-width, ligature, precomposed, Hangul syllable, compatibility ideograph; first and random choice), mixed forms, joined by U+0020, U+3000 or another code point that normalises to U+0020; wrong-checksum and unknown-word sentences in the same spellings; random Unicode strings with their four normal forms and a random pre-image respelling; histories in one process in which a non-normalised spelling is asked under one language, then under another, each time followed by its NFKD spelling; non-trivial = the two strings differ bytewise; distinct by (base, variant, language)",
 		"samples":                        smp.List(),
 		"groups_by_kind":                 kinds.Map(),
 		"pairs_compared":                 pairs.Map(),
